@@ -60,13 +60,15 @@ def gen_draws(r, fast_frac=0.2):
 
 
 def build(scn, guide=None, max_steps=150_000, max_time=None):
+    max_steps = scn.get("max_steps", max_steps)
     draws = Draws(scn.get("draws"))
     lat = scn.get("draws", {}).get("lat") or [0.0]
     if max_time is None:
         max_time = 120.0 + 40.0 * max(lat) * 8 + 3.0 * sum(lat)
     k = Kernel(scn["sched"], guide=guide, max_steps=max_steps, max_time=max_time)
     fw = Firmware(k, scn.get("cfg", {}), draws)
-    link = Link(k, fw, draws, corrupt={int(a): b for a, b in (scn.get("corrupt") or {}).items()})
+    link = Link(k, fw, draws, corrupt={int(a): b for a, b in (scn.get("corrupt") or {}).items()},
+                corrupt_m110=bool(scn.get("corrupt_m110")))
     env = {"k": k, "fw": fw, "link": link, "draws": draws}
     shims.install(k, env)
     return k, env
